@@ -1,8 +1,8 @@
-import Votca.Lemmas.C16
+import Votca.Lemmas.C16Comp
 /-! # C16 — breadth-first distance labelling assigns every reachable vertex its shortest-path hop count
 
-About `Votca/Model/C16.lean`, for every graph and every order of the adjacency lists.  Decomposition into components and
-single-network detection rest on the corollary `explored_iff_reachable`.  Label-independence of the structure id and
+About `Votca/Model/C16.lean`, for every graph and every order of the adjacency lists.  Termination on finite graphs (`bfs_terminates`), the decomposition into
+components (`components_partition`) and single-network detection (`single_network_iff`) are proved below.  Label-independence of the structure id and
 reduce/expand losslessness are NOT proved (tied by exhaustive correspondence only — see DESIGN.md, C16: partial). -/
 namespace Votca.C16
 
@@ -63,5 +63,179 @@ def demoAdj : Nat → List Nat
   | 0 => [4, 1] | 1 => [2, 0] | 2 => [1, 3, 5] | 3 => [4, 2] | 4 => [0, 3] | 5 => [2] | _ => []
 example : (run demoAdj 40 (init demoAdj 0)).queue = [] ∧
     (List.range 7).map (run demoAdj 40 (init demoAdj 0)).dist = [some 0, some 1, some 2, some 2, some 1, some 3, none] := by decide
+
+/-! ## termination: on a finite graph the hypothesis `hempty` above is discharged by a fuel bound -/
+
+/-- sum of the degrees of the listed vertices (twice the edge count for an undirected graph) -/
+def degSum (adj : Nat → List Nat) (verts : List Nat) : Nat := (verts.map fun v => (adj v).length).sum
+
+theorem pot_init (adj : Nat → List Nat) (verts : List Nat) (s : Nat) (hnd : verts.Nodup) (hs : s ∈ verts) :
+    pot adj verts (init adj s) ≤ degSum adj verts := by
+  have h := unexpDeg_explore adj (fun _ => none) verts s 0 hnd hs rfl
+  have hall : unexpDeg adj (fun _ => none) verts = degSum adj verts := by
+    unfold unexpDeg degSum
+    congr 1
+    congr 1
+    exact List.filter_eq_self.mpr (fun _ _ => rfl)
+  have hp := pushes_length_le adj (fun v => if v = s then some 0 else none) s
+  simp only [pot, init]
+  omega
+
+/-- the labelling terminates: on a finite vertex set closed under adjacency, any fuel of at least the degree sum leaves the
+    queue empty — whatever the order of the adjacency lists (the potential argument of `Lemmas/C16Term.lean`) -/
+theorem bfs_terminates (adj : Nat → List Nat) (verts : List Nat) (s k : Nat) (hnd : verts.Nodup)
+    (hclosed : ∀ v ∈ verts, ∀ x ∈ adj v, x ∈ verts) (hs : s ∈ verts) (hk : degSum adj verts ≤ k) :
+    (run adj k (init adj s)).queue = [] := by
+  apply run_empties adj verts hnd hclosed k (init adj s)
+  · exact Nat.le_trans (pot_init adj verts s hnd hs) hk
+  · intro e he
+    obtain ⟨h1, h2, _⟩ := mem_pushes.mp he
+    exact hclosed s hs e.2 h2
+
+/-- the full statement on finite graphs, no side condition on the run: labels are exactly the shortest-path hop counts -/
+theorem bfs_dist_finite (adj : Nat → List Nat) (verts : List Nat) (s k : Nat) (hnd : verts.Nodup)
+    (hclosed : ∀ v ∈ verts, ∀ x ∈ adj v, x ∈ verts) (hs : s ∈ verts) (hk : degSum adj verts ≤ k) (v : Nat) :
+    let d := (run adj k (init adj s)).dist
+    (∀ j, Walk adj j s v → ∃ dv, d v = some dv ∧ dv ≤ j ∧ Walk adj dv s v) ∧
+    (∀ dv, d v = some dv → Walk adj dv s v) :=
+  bfs_dist adj s k (bfs_terminates adj verts s k hnd hclosed hs hk) v
+
+theorem explored_iff_reachable_finite (adj : Nat → List Nat) (verts : List Nat) (s k : Nat) (hnd : verts.Nodup)
+    (hclosed : ∀ v ∈ verts, ∀ x ∈ adj v, x ∈ verts) (hs : s ∈ verts) (hk : degSum adj verts ≤ k) (v : Nat) :
+    ((run adj k (init adj s)).dist v).isSome = true ↔ ∃ j, Walk adj j s v :=
+  explored_iff_reachable adj s k (bfs_terminates adj verts s k hnd hclosed hs hk) v
+
+/-- the labelled result does not depend on the fuel once it suffices: two sufficient fuels give the same labels -/
+theorem labels_fuel_independent (adj : Nat → List Nat) (verts : List Nat) (s k k2 : Nat) (hnd : verts.Nodup)
+    (hclosed : ∀ v ∈ verts, ∀ x ∈ adj v, x ∈ verts) (hs : s ∈ verts) (hk : degSum adj verts ≤ k) (hk2 : degSum adj verts ≤ k2)
+    (v : Nat) : (run adj k (init adj s)).dist v = (run adj k2 (init adj s)).dist v := by
+  obtain ⟨a1, a2⟩ := bfs_dist_finite adj verts s k hnd hclosed hs hk v
+  obtain ⟨b1, b2⟩ := bfs_dist_finite adj verts s k2 hnd hclosed hs hk2 v
+  cases h1 : (run adj k (init adj s)).dist v with
+  | none =>
+    cases h2 : (run adj k2 (init adj s)).dist v with
+    | none => rfl
+    | some d2 =>
+      obtain ⟨d, hd, _, _⟩ := a1 d2 (b2 d2 h2)
+      rw [h1] at hd; cases hd
+  | some d1 =>
+    obtain ⟨d2, hd2, hle, _⟩ := b1 d1 (a2 d1 h1)
+    obtain ⟨d1', hd1', hle', _⟩ := a1 d2 (b2 d2 hd2)
+    rw [h1] at hd1'; cases hd1'
+    rw [hd2]; congr 1; omega
+
+/-- order independence: two adjacency functions listing the same neighbours in different orders give the same labels -/
+theorem labels_order_independent (adj adj2 : Nat → List Nat) (verts : List Nat) (s k : Nat) (hnd : verts.Nodup)
+    (hclosed : ∀ v ∈ verts, ∀ x ∈ adj v, x ∈ verts) (hs : s ∈ verts)
+    (hperm : ∀ v, (adj v).Perm (adj2 v)) (hk : degSum adj verts ≤ k) (v : Nat) :
+    (run adj k (init adj s)).dist v = (run adj2 k (init adj2 s)).dist v := by
+  have hclosed2 : ∀ v ∈ verts, ∀ x ∈ adj2 v, x ∈ verts := fun v hv x hx => hclosed v hv x ((hperm v).mem_iff.mpr hx)
+  have hdeg : degSum adj2 verts = degSum adj verts := by
+    unfold degSum; congr 1; apply List.map_congr_left; intro v _; exact (hperm v).length_eq.symm
+  have walk12 : ∀ j a b, Walk adj j a b → Walk adj2 j a b := by
+    intro j a b h
+    induction h with
+    | nil u => exact Walk.nil u
+    | cons hx _ ih => exact Walk.cons ((hperm _).mem_iff.mp hx) ih
+  have walk21 : ∀ j a b, Walk adj2 j a b → Walk adj j a b := by
+    intro j a b h
+    induction h with
+    | nil u => exact Walk.nil u
+    | cons hx _ ih => exact Walk.cons ((hperm _).mem_iff.mpr hx) ih
+  obtain ⟨a1, a2⟩ := bfs_dist_finite adj verts s k hnd hclosed hs hk v
+  obtain ⟨b1, b2⟩ := bfs_dist_finite adj2 verts s k hnd hclosed2 hs (by omega) v
+  cases h1 : (run adj k (init adj s)).dist v with
+  | none =>
+    cases h2 : (run adj2 k (init adj2 s)).dist v with
+    | none => rfl
+    | some d2 =>
+      obtain ⟨d, hd, _, _⟩ := a1 d2 (walk21 _ _ _ (b2 d2 h2))
+      rw [h1] at hd; cases hd
+  | some d1 =>
+    obtain ⟨d2, hd2, hle, _⟩ := b1 d1 (walk12 _ _ _ (a2 d1 h1))
+    obtain ⟨d1', hd1', hle', _⟩ := a1 d2 (walk21 _ _ _ (b2 d2 hd2))
+    rw [h1] at hd1'; cases hd1'
+    rw [hd2]; congr 1; omega
+
+/-! non-vacuity of the finite-graph hypotheses on the demo graph: closed, duplicate-free, degree sum 12 -/
+example : (List.range 7).Nodup ∧ (∀ v ∈ List.range 7, ∀ x ∈ demoAdj v, x ∈ List.range 7) ∧ degSum demoAdj (List.range 7) = 12 := by decide
+
+/-! ## decomposition into connected components and single-network detection (undirected graph on vertices `0..n-1`) -/
+
+theorem mem_compOf (adj : Nat → List Nat) (n fuel : Nat) (hclosed : ∀ v, v < n → ∀ x ∈ adj v, x < n)
+    (hk : degSum adj (List.range n) ≤ fuel) (s : Nat) (hs : s < n) (v : Nat) :
+    v ∈ compOf adj n fuel s ↔ v < n ∧ Reach adj s v := by
+  have hcl : ∀ v ∈ List.range n, ∀ x ∈ adj v, x ∈ List.range n := by
+    intro v hv x hx
+    exact List.mem_range.mpr (hclosed v (List.mem_range.mp hv) x hx)
+  have h := explored_iff_reachable_finite adj (List.range n) s fuel List.nodup_range hcl (List.mem_range.mpr hs) hk v
+  unfold compOf Reach
+  rw [List.mem_filter, List.mem_range, h]
+
+/-- the component sweep partitions the vertex set into the classes of mutual reachability: every vertex lies in a listed
+    component, listed components are pairwise disjoint, and each one is exactly the set of vertices reachable from any of
+    its members — for every order of the adjacency lists -/
+theorem components_partition (adj : Nat → List Nat) (n fuel : Nat) (hclosed : ∀ v, v < n → ∀ x ∈ adj v, x < n)
+    (hsym : ∀ u v, v ∈ adj u → u ∈ adj v) (hk : degSum adj (List.range n) ≤ fuel) :
+    (∀ v, v < n → ∃ c ∈ components adj n fuel, v ∈ c) ∧
+    (components adj n fuel).Pairwise Disjoint2 ∧
+    (∀ c ∈ components adj n fuel, c ≠ [] ∧ ∀ u ∈ c, ∀ v, v ∈ c ↔ v < n ∧ Reach adj u v) := by
+  have hmem := mem_compOf adj n fuel hclosed hk
+  have h := compInv_sweep adj n fuel hsym hmem n (Nat.le_refl n)
+  rw [← components_eq] at h
+  refine ⟨h.cover, h.disj, ?_⟩
+  intro c hc
+  obtain ⟨s, hs, he⟩ := h.src c hc
+  subst he
+  constructor
+  · intro hnil
+    have : s ∈ compOf adj n fuel s := (hmem s hs s).mpr ⟨hs, Reach.refl adj s⟩
+    rw [hnil] at this; cases this
+  · intro u hu v
+    obtain ⟨_, hsu⟩ := (hmem s hs u).mp hu
+    rw [hmem s hs v]
+    constructor
+    · rintro ⟨hv, hsv⟩; exact ⟨hv, (hsu.symm hsym).trans hsv⟩
+    · rintro ⟨hv, huv⟩; exact ⟨hv, hsu.trans huv⟩
+
+/-- single-network detection: exactly one component is listed iff all vertices are mutually reachable -/
+theorem single_network_iff (adj : Nat → List Nat) (n fuel : Nat) (hn : 0 < n) (hclosed : ∀ v, v < n → ∀ x ∈ adj v, x < n)
+    (hsym : ∀ u v, v ∈ adj u → u ∈ adj v) (hk : degSum adj (List.range n) ≤ fuel) :
+    (components adj n fuel).length = 1 ↔ ∀ u v, u < n → v < n → Reach adj u v := by
+  obtain ⟨hcov, hdisj, hcls⟩ := components_partition adj n fuel hclosed hsym hk
+  constructor
+  · intro hlen u v hu hv
+    obtain ⟨c, hc⟩ := List.length_eq_one_iff.mp hlen
+    rw [hc] at hcov hcls
+    obtain ⟨c1, hc1, hu1⟩ := hcov u hu
+    obtain ⟨c2, hc2, hv2⟩ := hcov v hv
+    have e1 : c1 = c := by simpa using hc1
+    have e2 : c2 = c := by simpa using hc2
+    rw [e1] at hu1; rw [e2] at hv2
+    exact (((hcls c (by simp)).2 u hu1 v).mp hv2).2
+  · intro hall
+    cases hcs : components adj n fuel with
+    | nil =>
+      obtain ⟨c, hc, _⟩ := hcov 0 hn
+      rw [hcs] at hc; cases hc
+    | cons c1 rest =>
+      cases rest with
+      | nil => rfl
+      | cons c2 rest2 =>
+        exfalso
+        rw [hcs] at hdisj hcls
+        have hd12 : Disjoint2 c1 c2 := (List.pairwise_cons.mp hdisj).1 c2 (by simp)
+        obtain ⟨hne1, hcl1⟩ := hcls c1 (by simp)
+        obtain ⟨hne2, hcl2⟩ := hcls c2 (by simp)
+        obtain ⟨u, hu⟩ := List.exists_mem_of_ne_nil c1 hne1
+        obtain ⟨v, hv⟩ := List.exists_mem_of_ne_nil c2 hne2
+        have hun : u < n := ((hcl1 u hu u).mp hu).1
+        have hvn : v < n := ((hcl2 v hv v).mp hv).1
+        have : v ∈ c1 := (hcl1 u hu v).mpr ⟨hvn, hall u v hun hvn⟩
+        exact hd12 v this hv
+
+/-! non-vacuity: the demo graph with an isolated vertex 6 — two components; hypotheses hold -/
+example : components demoAdj 7 12 = [[0, 1, 2, 3, 4, 5], [6]] ∧ (∀ v, v < 7 → ∀ x ∈ demoAdj v, x < 7) ∧
+    (∀ u, u < 7 → ∀ v ∈ demoAdj u, u ∈ demoAdj v) := by decide
 
 end Votca.C16
